@@ -157,6 +157,10 @@ Generalises == Done =>
    leaves no two buckets unordered, so the result is a function of the input *)
 Sorted == Done => \A a, b \in 1..Len(result) : a < b => Before(result[a], result[b]) /\ ~Before(result[b], result[a])
 FirstFirst == Done => result[1].first
+(* C06 *)
+Deterministic == Done =>
+   [k \in 1..Len(result) |-> [sig |-> result[k].sig, ids |-> result[k].ids, first |-> result[k].first]]
+     = Canon([p \in 1..N |-> Sig(p)], [p \in 1..N |-> IdOf(p)], lvl)
 
 (* static facts about the universe *)
 SimIsKey == \A a, b \in 1..Len(U) : \A l \in LevelSet : Similar(U[a], U[b], l) <=> Key(U[a], l) = Key(U[b], l)
